@@ -25,15 +25,37 @@ def tables(ctx, harness, driver):
     return lines, bad
 
 
+def f19_applies(ctoks, cells, pl):
+    """known finding F19: some movable polarised cell taller than a row sits (after legalization) at a y where
+    two row segments have different orientations"""
+    nr = int(ctoks[0])
+    rows = [[int(x) for x in ctoks[1 + 5 * r:6 + 5 * r]] for r in range(nr)]
+    if not rows:
+        return False
+    rh = rows[0][3] - rows[0][2]
+    by_y = {}
+    for r in rows:
+        by_y.setdefault(r[2], set()).add(r[4])
+    for ci, c in enumerate(cells):
+        if c[6] or c[5] == 0:
+            continue
+        o = pl[3 * ci + 2]
+        ph = c[2] if o in (2, 3, 6, 7) else c[3]
+        if ph > rh and len(by_y.get(pl[3 * ci + 1], ())) > 1:
+            return True
+    return False
+
+
 def run(ctx):
     from checks import detailed_common as dc
     proof_ok, proof = common.proof_status(ctx, "C04")
     n = 3000 if ctx.quick else 40000
     s = ctx.seed
-    plan = [(0, n // 2, s + 10), (2, n // 2, s + 11)]
+    plan = [(0, n // 2, s + 10), (2, n // 2, s + 11), (16, n // 3, s + 12)]
     run = lc.LegalRun(ctx, plan).execute()
     tl, tbad = tables(ctx, run.harness, run.driver)
     mism, ofail, nontriv = [], [], set()
+    known_f19 = 0
     for i, l in enumerate(run.lines):
         kind, pl, order = run.parsed[i][0]
         same, istr, mstr = run.model_cmp(i, 0)
@@ -41,10 +63,13 @@ def run(ctx):
             mism.append((l, istr, mstr))
         flags = run.checks.get((i, 0))
         if kind == "OK":
-            if flags is None or flags[1] != "1":
-                ofail.append((l, run.impl[i], "after legalization a cell has an orientation its polarity does not prescribe (proved checker orient_okb = false)"))
             ctoks, _ = lc.split_case(l)
             cells, _ = lc.cells_of(ctoks)
+            if flags is None or flags[1] != "1":
+                if f19_applies(ctoks, cells, pl) and ctx.known_finding("F19"):
+                    known_f19 += 1
+                else:
+                    ofail.append((l, run.impl[i], "after legalization a cell has an orientation its polarity does not prescribe (proved checker orient_okb = false)"))
             if any(c[5] != 0 and not c[6] for c in cells):
                 nontriv.add(l)
     for l, i, m in tbad[:2]:
@@ -66,6 +91,7 @@ def run(ctx):
                 "rule": "tables: all 5 polarities x 10 enum values, exhaustive; legalization: random circuits of the C01 generator (every polarity on 1-3 row cells, "
                         "alternating/uniform/irregular N/S/FN/FS rows); detailed placement: orient_okb at every Detailed callback and at return. "
                         "non-trivial = the circuit has a polarised movable cell and the call returned",
+                "known_F19_matches": known_f19,
                 "exhaustive": True, "table_entries": len(tl), "table_differences": len(tbad),
                 "samples": [run.lines[0], tl[7]],
                 "detailed_runs": dres["runs"], "detailed_callback_states_checked": dres["states"],
